@@ -15,7 +15,7 @@ let run_load ic =
     | [src; root; cwd] ->
       (match parse (bytes_of_hex src) with
        | PTree nodes ->
-         (match load (bytes_of_hex cwd) exec_oracle (bytes_of_hex root) nodes with
+         (match load (bytes_of_hex cwd) (fun _ c -> exec_oracle c) (bytes_of_hex root) nodes with
           | LErr _ -> print_endline "ERR"
           | LOk (vs, ts) ->
             let vs = List.sort (fun (a, _) (b, _) -> compare (string_of_bytes a) (string_of_bytes b)) vs in
